@@ -10,6 +10,7 @@ CONSTANTS
   MaxSteps = 2
   LineRuns <- TinyRuns
   CurveRuns <- TinyRuns
+  FarJumps = TRUE
   Sim = FALSE
 INIT Init
 NEXT Next
